@@ -184,6 +184,11 @@ def run(case):
         if best is None:
             return
         tolb = 1e-6 * (1 + abs(best))
+        if rec_obj > best + tolb and not variant.startswith("noise") and variant != "solve_twice":
+            o_np = drivers.objective_without_presolve(dict(case, cls=cls, kw=kw), G)
+            if o_np["solved"] and o_np["obj"] is not None and o_np["obj"] <= best + tolb:
+                tags["highs_presolve_wrong_optimum"] += 1
+                return
         if rec_obj > best + tolb:
             kind = "lae_not_optimal"
             if cyc:
